@@ -15,6 +15,7 @@ CONSTANTS
     IteOn = TRUE
     CallOn = {"sub2", "subxy", "ratio", "pick", "loc", "nest", "kmul"}
     AugOn = {"add", "mul"}
+    PassOn = TRUE
     ChainOn = TRUE
     LoopOn = TRUE
     MaxToks = 100
